@@ -1,10 +1,15 @@
 import TwistedModel.Telnet.Data
 /-!
 Driver glue for C38.  Bytes are lower-case hex, `-` = empty.
-  `C38 send <cuts> <op> <op> …`   ops `w:<hex>` (write) / `s:<hex>;<hex>;…` (writeSequence, `s:` alone = `[]`);
+  `C38 send <cuts> <op> <op> …`   ops `w:<hex>` (write) / `s:<hex>;<hex>;…` (writeSequence, `s:` alone = `[]`) /
+                                   `c:<xx><xx>` (the sender's telnet layer: `_write(IAC + <xx> + <xx>)`, will/wont/do/dont(option)) /
+                                   `n:<xx>:<hex>` (`requestNegotiation(about, data)`);
                                    `<cuts>` = `-` or increasing decimal offsets joined by `,` (clamped to the
                                    wire length) at which the wire is cut into `dataReceived` calls
       → `wire=<hex> <recv-result>`
+  `C38 sendz <cuts> <op> …`       the same for large cases: a byte string may be given as `#<n>.<k>` (first n bytes of the
+                                   periodic pattern k, table `pats`), and every byte string of the answer longer than 48 bytes
+                                   is printed as `~<length>.<digest>` (`digest`: the fold h ↦ (257 h + b + 1) mod 1000000007)
   `C38 recv <hex>,<hex>,…`        raw segments fed to a fresh receiver
       → `<seg>|<seg>|… state=<name>`; each `<seg>` = events joined by `,` (`-` when none):
         `A<hex>` applicationDataReceived, `C<xx>:<xx or ->` commandReceived, `N<hex>` negotiate,
@@ -27,8 +32,24 @@ def decHexL : List Char → Option Bytes
     let r ← decHexL rest
     pure (UInt8.ofNat (x * 16 + y) :: r)
 
+/-- the periodic patterns of the large class (same table as `PATS` in harness/corr/C38.py) -/
+def pats : Array (Array UInt8) :=
+  #[#[0x61], #[0x61, 0x62, 0x0a, 0xff], #[0xff], #[0x0a], #[0x78, 0xff, 0xf4, 0x79, 0x0a, 0x00], #[0xff, 0x0a],
+    #[0xfa, 0xff, 0xf0, 0x0a, 0xff, 0x7a]]
+
+/-- `#<n>.<k>`: the first `n` bytes of pattern `k` repeated -/
+def decPat (s : String) : Option Bytes :=
+  match (s.drop 1).toString.splitOn "." with
+  | [n, k] => do
+    let n ← n.toNat?
+    let k ← k.toNat?
+    let p ← pats[k]?
+    if p.size = 0 then none else some ((List.range n).map fun i => p.getD (i % p.size) 0)
+  | _ => none
+
 def decHex (s : String) : Option Bytes :=
-  if s = "-" then some [] else if s.isEmpty then none else decHexL s.toList
+  if s = "-" then some [] else if s.isEmpty then none
+  else if s.startsWith "#" then decPat s else decHexL s.toList
 
 def hexChar (n : Nat) : Char :=
   if n < 10 then Char.ofNat ('0'.toNat + n) else Char.ofNat ('a'.toNat + n - 10)
@@ -38,18 +59,24 @@ def encByte (b : UInt8) : String := String.ofList [hexChar (b.toNat / 16), hexCh
 def encHex (bs : Bytes) : String :=
   if bs.isEmpty then "-" else String.join (bs.map encByte)
 
-def showEv : Ev → String
-  | .app d => "A" ++ encHex d
+def digest (bs : Bytes) : Nat := bs.foldl (fun h b => (h * 257 + b.toNat + 1) % 1000000007) 0
+
+/-- hex, or (large cases, `z`) `~<length>.<digest>` for anything longer than 48 bytes -/
+def encHexZ (z : Bool) (bs : Bytes) : String :=
+  if z && bs.length > 48 then "~" ++ toString bs.length ++ "." ++ toString (digest bs) else encHex bs
+
+def showEv (z : Bool) : Ev → String
+  | .app d => "A" ++ encHexZ z d
   | .cmd c none => "C" ++ encByte c ++ ":-"
   | .cmd c (some a) => "C" ++ encByte c ++ ":" ++ encByte a
-  | .neg d => "N" ++ encHex d
+  | .neg d => "N" ++ encHexZ z d
 
 def showErr : Err → String
   | .stumped => "!ValueError"
   | .index => "!IndexError"
 
-def showRes (r : Res) : String :=
-  let parts := r.evs.map showEv ++ (match r.err with | some e => [showErr e] | none => [])
+def showRes (z : Bool) (r : Res) : String :=
+  let parts := r.evs.map (showEv z) ++ (match r.err with | some e => [showErr e] | none => [])
   if parts.isEmpty then "-" else ",".intercalate parts
 
 def showState : PState → String
@@ -61,14 +88,26 @@ def finalState : St → List Res → St
   | _, [r] => r.st
   | st, _ :: rs => finalState st rs
 
-def showRecv (segs : List Bytes) : String :=
-  let rs := feedEach init segs
-  "|".intercalate (rs.map showRes) ++ " state=" ++ showState (finalState init rs).state
+/-- `feedEachFast` = `feedEach` (TwistedProps.C38.feedEachFast_eq) -/
+def showRecv (z : Bool) (segs : List Bytes) : String :=
+  let rs := feedEachFast init segs
+  "|".intercalate (rs.map (showRes z)) ++ " state=" ++ showState (finalState init rs).state
 
-def decOp (s : String) : Option Op :=
-  if s.startsWith "w:" then (decHex (s.drop 2).toString).map Op.write
-  else if s = "s:" then some (Op.writeSeq [])
-  else if s.startsWith "s:" then (((s.drop 2).toString.splitOn ";").mapM decHex).map Op.writeSeq
+def decOp (s : String) : Option HOp :=
+  if s.startsWith "w:" then (decHex (s.drop 2).toString).map fun d => .app (.write d)
+  else if s = "s:" then some (.app (.writeSeq []))
+  else if s.startsWith "s:" then (((s.drop 2).toString.splitOn ";").mapM decHex).map fun q => .app (.writeSeq q)
+  else if s.startsWith "c:" then
+    match decHex (s.drop 2).toString with
+    | some [c, opt] => some (.cmd c opt)
+    | _ => none
+  else if s.startsWith "n:" then
+    match (s.drop 2).toString.splitOn ":" with
+    | [a, d] =>
+      match decHex a, decHex d with
+      | some [about], some d => some (.subneg about d)
+      | _, _ => none
+    | _ => none
   else none
 
 def decCuts (s : String) : Option (List Nat) :=
@@ -79,18 +118,21 @@ def cutAt (w : Bytes) (pos : Nat) : List Nat → List Bytes
   | [] => [w]
   | c :: cs => let n := c - pos; w.take n :: cutAt (w.drop n) (max c pos) cs
 
+def handleSend (z : Bool) (cuts : String) (ops : List String) : String :=
+  match decCuts cuts, ops.mapM decOp with
+  | some cuts, some ops =>
+    let w := hwire ops
+    "wire=" ++ encHexZ z w ++ " " ++ showRecv z (cutAt w 0 cuts)
+  | _, _ => "bad-op"
+
 def handle (args : List String) : String :=
   match args with
   | ["recv", segs] =>
     match (segs.splitOn ",").mapM decHex with
-    | some segs => showRecv segs
+    | some segs => showRecv false segs
     | none => "bad-op"
-  | "send" :: cuts :: ops =>
-    match decCuts cuts, ops.mapM decOp with
-    | some cuts, some ops =>
-      let w := wire ops
-      "wire=" ++ encHex w ++ " " ++ showRecv (cutAt w 0 cuts)
-    | _, _ => "bad-op"
+  | "send" :: cuts :: ops => handleSend false cuts ops
+  | "sendz" :: cuts :: ops => handleSend true cuts ops
   | _ => "bad-op"
 
 end Twisted.Drv.C38
